@@ -77,9 +77,9 @@ CLAIMED = {
             "Decides the table-level inverse relation and the block-string gate; the round trip over all Unicode strings (indentation arithmetic, line joining) is not decided.",
             "pattern-set evaluation of closures/match arms, format-template decoding, const comparison over rustc HIR", False),
     "C05": ("other",
-            "Table- and shape-level necessary conditions of grammar conformance: keyword->production dispatch tables against the node kinds the productions open and against graphql.ungram / cst::Definition; four-way agreement on the 19 directive locations; one-or-more list productions cannot pass from opening to closing delimiter without an item or an error.",
-            "Verdict equivalence with a reference parser is not decided (not decidable by this family); only the named tables and shapes are.",
-            "string-pattern table extraction (HIR) + must-pass-through over MIR CFG + sibling table comparison", False),
+            "Table- and shape-level necessary conditions of grammar conformance: keyword->production dispatch tables against the node kinds the productions open and against graphql.ungram / cst::Definition; four-way agreement on the 19 directive locations; one-or-more list productions cannot pass from opening to closing delimiter without an item or an error; every node kind a grammar function opens has produced all elements graphql.ungram requires of it on every path that reports no error (abstract interpretation over token-kind sets).",
+            "Verdict equivalence with a reference parser is not decided (not decidable by this family); only the named tables and shapes are. One known finding: `schema { query: }` is accepted (root_operation_type_definition, missing NamedType), see known_findings.json.",
+            "string-pattern table extraction (HIR) + must-pass-through over MIR CFG + sibling table comparison + token-kind abstract interpretation of the grammar functions against graphql.ungram", False),
     "C28": ("other",
             "The scalar coercion table (built-in names, JSON predicates consulted per name, bounds) and the structural shape of null/list/input-object/variable-map handling, extracted from the type-checked match arms and if-chains.",
             "Clause-level: numeric edge values and serde_json_bytes' predicates are not decided.",
